@@ -8,7 +8,7 @@ from typing import TYPE_CHECKING, Any, Literal
 
 import networkx as nx
 
-from geff.core_io._utils import check_for_geff, delete_geff
+from geff.core_io._utils import check_for_geff, delete_geff, remove_tilde
 
 if TYPE_CHECKING:
     import xml.etree.ElementTree as ET
@@ -1019,6 +1019,8 @@ def from_trackmate_xml_to_geff(
     """
     xml_path = Path(xml_path)
     geff_path = Path(geff_path).with_suffix(".geff")
+    # expand "~" before the existing-geff check, as everything written below does
+    geff_path = Path(remove_tilde(geff_path))
     _preliminary_checks(xml_path, geff_path, overwrite=overwrite, zarr_format=zarr_format)
 
     # Data
